@@ -511,6 +511,177 @@ theorem C09_never_silent_real_partial {F} (ops : FloatOps F) (lookup : Int → R
     (hun : r.val = .unset) : UnsetOrigin ops nullable input :=
   never_silently_unset_real_of_cfg ops Generated.lexCfg (by decide) lookup nullable input hnul r h hne hun
 
+/-! ## entity reference -/
+
+/-- entity reference, never silent (any configuration that keeps the severity found after `$`): for any input bytes
+    without a NUL byte, whenever `STEPattribute::STEPread` flags no error then either
+    (a) the input is blanks, `#`, optional blanks, an integer token whose value fits `int`, blanks, and the stream rests at
+        the end or in front of a delimiter; an instance with that id exists and conforms to the attribute's type, and the
+        attribute refers to it (`#+5` and `# 5` are the reader's leniencies: they spell the id 5); or
+    (b) the attribute is OPTIONAL and the input is `$` (followed by blanks only) or a missing value; or
+    (c) the input is nothing but blanks. -/
+theorem never_silent_ref_of_cfg {F} (ops : FloatOps F) (cfg : LexCfg) (hcfg2 : cfg.dollarKeepsError = true)
+    (lookup : Int → RefLookup) (nullable : Bool) (input : List Byte) (hnul : ∀ b ∈ input, b ≠ 0) (r : ReadResult F)
+    (h : attrRead ops cfg lookup .ref nullable (IStream.ofBytes input) = .ok r) (hne : NoErr r.sev) :
+    (∃ sp1 spx tok sp2, input = sp1 ++ 35 :: (spx ++ tok ++ sp2 ++ r.s.right) ∧ sp1.all isSpace = true ∧ spx.all isSpace = true ∧
+        sp2.all isSpace = true ∧ isInteger tok = true ∧ intMin ≤ denoteInteger tok ∧ denoteInteger tok ≤ intMax ∧
+        lookup (denoteInteger tok) = .found ∧ r.val = .ref (denoteInteger tok) ∧ AtDelimOrEnd r.s.right) ∨
+    (nullable = true ∧ r.val = .unset ∧ ∃ sp1 c t, input = sp1 ++ c :: t ∧ sp1.all isSpace = true ∧
+        ((c = 36 ∧ ∃ sp2, t = sp2 ++ r.s.right ∧ sp2.all isSpace = true ∧ AtDelimOrEnd r.s.right) ∨
+         ((c = 44 ∨ c = 41) ∧ r.s.right = c :: t))) ∨
+    (input.all isSpace = true ∧ r.val = .unset) := by
+  obtain ⟨sp1, body, h1, h2, h3, h4⟩ := dropSpaces_split [] input
+  rcases h4 with rfl | ⟨c, t, rfl, hc⟩
+  · right; right
+    simp at h1; subst h1
+    have hws : (IStream.ofBytes input).ws = { left := input.reverse, right := [], eof := true } := by
+      simpa [IStream.ofBytes] using ws_blank [] input true h2
+    simp only [attrRead, hws] at h
+    simp [IStream.peekC, IStream.peek, IStream.sentry, IStream.good, readEntityRef, IStream.ws, IStream.getChar,
+      IStream.putback, checkRemainingInput, IStream.clear, dropSpaces] at h
+    subst h
+    exact ⟨h2, rfl⟩
+  · subst h1
+    by_cases h36 : c = 36
+    · subst h36
+      rw [attrRead_dollar ops cfg lookup .ref nullable sp1 t h2] at h
+      simp only [Outcome.ok.injEq] at h
+      have hch := cri_char { left := 36 :: sp1.reverse, right := t } Sev.null rfl
+      subst h
+      cases nullable with
+      | false => simp [NoErr] at hne
+      | true =>
+        simp only [hcfg2, if_true] at hne ⊢
+        right; left
+        have := hch.2 hne
+        simp at this
+        obtain ⟨sp2, hs2, ht, _, hat⟩ := this
+        exact ⟨by simp, by simp, sp1, 36, t, rfl, h2, Or.inl ⟨rfl, sp2, ht, by simpa using hs2, hat⟩⟩
+    · by_cases hdl : c = 44 ∨ c = 41
+      · rw [attrRead_missing ops cfg lookup .ref nullable sp1 t c h2 hdl] at h
+        simp only [Outcome.ok.injEq] at h
+        subst h
+        cases nullable with
+        | false => simp [NoErr] at hne
+        | true => right; left; exact ⟨rfl, rfl, sp1, c, t, rfl, h2, Or.inr ⟨hdl, rfl⟩⟩
+      · have hcond : (c == 36 || c == 44 || c == 41) = false := by
+          simp at hdl ⊢; exact ⟨⟨h36, hdl.1⟩, hdl.2⟩
+        have hc0 : c ≠ 0 := hnul c (by simp)
+        have hcd : isDelim attrDelims c = false := by
+          simp at hdl
+          simp [isDelim, attrDelims, hc0, hdl.1, hdl.2]
+        have hpre : (IStream.ofBytes (sp1 ++ c :: t)).ws = { left := sp1.reverse, right := c :: t } := by
+          simpa [IStream.ofBytes] using ws_good [] sp1 c t true h2 hc
+        simp only [attrRead, hpre, peekC_good, hcond, readEntityRef, ws_good0 _ _ _ _ hc, getChar_good _ _ _ hc] at h
+        simp only [Bool.false_eq_true, if_false, Option.getD_some, Option.isSome_some, Bool.and_true, Outcome.ok.injEq] at h
+        by_cases h35 : c = 35
+        · subst h35
+          simp only [beq_self_eq_true, Bool.true_or, if_true] at h
+          have h64 : ((35 : Byte) == 64) = false := by decide
+          simp only [h64, Bool.false_eq_true, if_false] at h
+          obtain ⟨spx, body', hb1, hb2, hb3, hb4⟩ := dropSpaces_split (35 :: sp1.reverse) t
+          rcases hb4 with rfl | ⟨c', t', rfl, hc'⟩
+          · -- nothing after `#`
+            exfalso
+            simp only [List.append_nil] at hb1
+            subst hb1
+            simp only [refTail, extractInt32_blank _ _ hb2, IStream.failed, Bool.or_false, if_true] at h
+            subst h
+            rcases cri_mono _ (Sev.null.greater Sev.warning) with hm | hm
+            · simp only at hne; rw [hm] at hne; exact greater_warning_err _ hne
+            · exact hm hne
+          · subst hb1
+            simp only [refTail, extractInt32_skip _ _ _ _ hb2 hc', IStream.failed, Bool.or_false] at h
+            obtain ⟨tok, rest, hr, hrest, hs2, hval, _⟩ :=
+              scanInt_split longMin longMax (by decide) (by decide) (spx.reverse ++ 35 :: sp1.reverse) (c' :: t')
+            generalize hsc : scanInt longMin longMax (spx.reverse ++ 35 :: sp1.reverse) (c' :: t') = sc at h hs2 hval
+            obtain ⟨res, l', r'⟩ := sc
+            simp only [Prod.mk.injEq] at hs2
+            obtain ⟨rfl, rfl⟩ := hs2
+            simp only at h hval
+            by_cases hlo : res.value < intMin
+            · exfalso
+              simp only [hlo, if_true] at h
+              subst h
+              rcases cri_mono _ (Sev.null.greater Sev.warning) with hm | hm
+              · simp only at hne; rw [hm] at hne; exact greater_warning_err _ hne
+              · exact hm hne
+            · by_cases hhi : res.value > intMax
+              · exfalso
+                simp only [hlo, hhi, if_true, if_false] at h
+                subst h
+                rcases cri_mono _ (Sev.null.greater Sev.warning) with hm | hm
+                · simp only at hne; rw [hm] at hne; exact greater_warning_err _ hne
+                · exact hm hne
+              · simp only [hlo, hhi, if_false] at h
+                cases hf : res.fail with
+                | true =>
+                  exfalso
+                  simp only [hf, if_true] at h
+                  subst h
+                  rcases cri_mono _ (Sev.null.greater Sev.warning) with hm | hm
+                  · simp only at hne; rw [hm] at hne; exact greater_warning_err _ hne
+                  · exact hm hne
+                | false =>
+                  simp only [hf, Bool.false_eq_true, if_false, Option.getD_some] at h
+                  obtain ⟨htok, hv, _, _⟩ := hval hf
+                  cases hlk : lookup res.value with
+                  | found =>
+                    simp only [hlk] at h
+                    subst h
+                    simp only at hne ⊢
+                    have hch := (cri_char { left := tok.reverse ++ (spx.reverse ++ 35 :: sp1.reverse), right := r', eof := r'.isEmpty, fail := false }
+                      Sev.null rfl).2 hne
+                    generalize checkRemainingInput (some attrDelims)
+                      { left := tok.reverse ++ (spx.reverse ++ 35 :: sp1.reverse), right := r', eof := r'.isEmpty, fail := false } Sev.null = X at hne hch ⊢
+                    left
+                    rw [hv] at hlk hlo hhi
+                    rcases hch with ⟨heof, hsame⟩ | ⟨heof, sp2, hsp2, hrr, _, hat⟩
+                    · simp only at heof
+                      have hre : r' = [] := by simpa using heof
+                      subst hre
+                      refine ⟨sp1, spx, tok, [], ?_, h2, hb2, by simp, htok, by omega, by omega, hlk, by rw [hv], ?_⟩
+                      · rw [hsame]; simp [hr]
+                      · rw [hsame]; exact Or.inl rfl
+                    · simp only at hrr
+                      refine ⟨sp1, spx, tok, sp2, ?_, h2, hb2, hsp2, htok, by omega, by omega, hlk, by rw [hv], hat⟩
+                      rw [hr, hrr]; simp
+                  | wrongType =>
+                    exfalso
+                    simp only [hlk] at h
+                    subst h
+                    exact greater_warning_err _ hne
+                  | missing =>
+                    exfalso
+                    simp only [hlk] at h
+                    subst h
+                    exact greater_warning_err _ hne
+        · by_cases h64 : c = 64
+          · -- `@`: always a warning
+            exfalso
+            subst h64
+            simp only [beq_self_eq_true, Bool.or_true, if_true] at h
+            subst h
+            exact refTail_mono lookup _ _ (greater_warning_err _) hne
+          · exfalso
+            have hno : (c == 35 || c == 64) = false := by simp [h35, h64]
+            simp only [hno, Bool.false_eq_true, if_false, putback_good] at h
+            subst h
+            exact cri_garbage _ c t false true _ hc hcd hne
+
+/-- entity reference, never silent, for the scanners as the source has them now. -/
+theorem C09_never_silent_ref {F} (ops : FloatOps F) (lookup : Int → RefLookup) (nullable : Bool) (input : List Byte)
+    (hnul : ∀ b ∈ input, b ≠ 0) (r : ReadResult F)
+    (h : attrRead ops Generated.lexCfg lookup .ref nullable (IStream.ofBytes input) = .ok r) (hne : NoErr r.sev) :
+    (∃ sp1 spx tok sp2, input = sp1 ++ 35 :: (spx ++ tok ++ sp2 ++ r.s.right) ∧ sp1.all isSpace = true ∧ spx.all isSpace = true ∧
+        sp2.all isSpace = true ∧ isInteger tok = true ∧ intMin ≤ denoteInteger tok ∧ denoteInteger tok ≤ intMax ∧
+        lookup (denoteInteger tok) = .found ∧ r.val = .ref (denoteInteger tok) ∧ AtDelimOrEnd r.s.right) ∨
+    (nullable = true ∧ r.val = .unset ∧ ∃ sp1 c t, input = sp1 ++ c :: t ∧ sp1.all isSpace = true ∧
+        ((c = 36 ∧ ∃ sp2, t = sp2 ++ r.s.right ∧ sp2.all isSpace = true ∧ AtDelimOrEnd r.s.right) ∨
+         ((c = 44 ∨ c = 41) ∧ r.s.right = c :: t))) ∨
+    (input.all isSpace = true ∧ r.val = .unset) :=
+  never_silent_ref_of_cfg ops Generated.lexCfg (by decide) lookup nullable input hnul r h hne
+
 /-! ## witnesses: what the unrepaired scanners did, and the in-band null (any configuration)
 
 Each `…_witness_unrepaired` theorem evaluates the model under the configuration of the tree *before* the C09 repairs on the
